@@ -318,6 +318,17 @@ def check_timeouts(sc, events, log):
             if not ok:
                 return ('contender c%d timed out although during its attempt (events %d..%d) no other contender '
                         'held or was taking the lock' % (tid, a, b))
+        # "continuously unavailable": the waiter must not give up on stale information. If the lock became free and
+        # stayed free, and the waiter afterwards slept (simulated time passed) and raised the time-out without looking
+        # at the lock again, the lock was available for a stretch of time before the time-out.
+        others = [(us, ue) for utid, us, ue in unavail if utid != tid and us <= seq and ue >= s_seq]
+        last_busy = max([min(ue, seq) for us, ue in others] or [s_seq])
+        if last_busy < seq:
+            woke = [k for k in range(last_busy, min(seq, len(log))) if log[k][0] == tid and log[k][1] == 'slept']
+            if woke and not any(k > woke[-1] for k in opens):
+                return ('contender c%d got LockTimeout although the lock had been released (event %d) before its last sleep '
+                        'ended (event %d) and nobody took it again: it never looked at the lock after waking up' % (
+                            tid, last_busy, woke[-1]))
     return None
 
 
